@@ -40,6 +40,12 @@ def run_both(ck, cases, release=False):
         c['m_raw'], c['r_raw'] = m, r
         c['m'], c['r'] = parse(m), parse(r)
         ck.count('compared')
+        # error classes are recorded (which model error branches the inputs reach) but never gate a verdict
+        mw, rw = c['m'].get('why'), c['r'].get('why')
+        if mw is not None:
+            ck.count('model_outcome_' + (mw if mw in ('-', 'io', 'hts', 'lzma', 'xz') else 'panic:' + mw))
+            if rw is not None and mw in ('io', 'hts', 'lzma', 'xz') and rw != mw and c['m'].get('verdict') == c['r'].get('verdict'):
+                ck.count('error_class_differs_from_model')
     return cases
 
 def replay_dict(c, extra=None):
